@@ -23,6 +23,7 @@ import BW.Proofs.PlannerFetch3
 import BW.Proofs.PlannerStep6
 import BW.Proofs.PlannerStep11
 import BW.Proofs.Projection
+import BW.Proofs.Hooks
 
 namespace BW.Props.C03
 open BW.Model BW.Spec BW.Proofs.Query BW.Proofs.Planner BW.Proofs.Store BW.Proofs.ClauseOrder
@@ -187,6 +188,28 @@ theorem projection_is_simultaneous (ps : List Proj) (rows : List Row) (hb : ∀ 
   ⟨BW.Proofs.Projection.projectPlain_rows ps rows,
    fun r hr' p hp => BW.Proofs.Projection.projection_spec ps r hb hf (hr r hr') p hp⟩
 
+/-! ### From the text to the clause -/
+
+/-- The WHERE-clause hooks of the semantic layer build, from the tokens of a clause, exactly the clause the
+    text denotes: the subject hook over the subject's tokens (after `OPTIONAL {` for an optional clause), the
+    predicate hook over the predicate's, the object hook over the object's — constants (node, full predicate,
+    literal), bindings, `"id"@[?t]`, `"id"@[lo,hi]` with times or bound aliases, and the `AS` / `TYPE` / `ID` /
+    `AT` aliases in any order — each in the field of its position, nothing else touched. Which symbol's
+    tokens reach which hook is regenerated from the running grammar (`C18.routing_wf`); the whole path
+    text → tokens → parser events → hooks → clauses is run against the real hooks on every generated
+    statement (`hooks` correspondence). -/
+theorem where_clause_means_its_tokens (a : BW.Proofs.Hooks.ClauseAST) (hv : a.Valid) :
+    (match BW.Proofs.Hooks.runPart BW.Model.Hooks.subjStep {} none
+        (BW.Proofs.Hooks.optToks a ++ BW.Proofs.Hooks.sTok a.sb :: BW.Proofs.Hooks.modToks a.smods) with
+     | none => none
+     | some (c1, _) =>
+       match BW.Proofs.Hooks.runPart BW.Model.Hooks.predStep c1 none (BW.Proofs.Hooks.pTok a.pb :: BW.Proofs.Hooks.modToks a.pmods) with
+       | none => none
+       | some (c2, _) =>
+         (BW.Proofs.Hooks.runPart BW.Model.Hooks.objStep c2 none (BW.Proofs.Hooks.oTok a.ob :: BW.Proofs.Hooks.modToks a.omods)).map (·.1))
+      = some (BW.Proofs.Hooks.denote a) :=
+  BW.Proofs.Hooks.clause_denote a hv
+
 /-- Non-vacuity: the hypotheses hold for a one-triple graph and a clause with a constant predicate. -/
 def exV : TView := { id := 0, ks := preNode exT.s, pid := exT.p.id, pnano := none, ko := preNode ⟨[47, 117], [98]⟩ }
 def exQ : QGraph := { g := Graph.empty.add1 Facts.reference exV, uni := fun _ => some exT }
@@ -271,3 +294,4 @@ end BW.Props.C03
 #print axioms BW.Props.C03.select_pattern_eq_solutions
 #print axioms BW.Props.C03.one_clause_is_one_join
 #print axioms BW.Props.C03.projection_is_simultaneous
+#print axioms BW.Props.C03.where_clause_means_its_tokens
